@@ -423,8 +423,8 @@ theorem second_choice (w : W) (j : Job) (hint : Option Nat) (worker : Nat) (w1 :
     exact ⟨worker, rfl, availP_hasW ha⟩
   | sq =>
     simp only [hr] at hc ⊢
-    have ha : hintProcessing w1.pool (some worker) j.key = true ∨
-        ((w1.pool.find? (·.isProcessingKey j.key)).isSome) ∨ hintAvailable w1.pool (some worker) = true := by
+    have ha : hintPending w1.pool (some worker) j.key = true ∨
+        ((w1.pool.find? (·.hasPendingKey j.key)).isSome) ∨ hintAvailable w1.pool (some worker) = true := by
       rw [hpool]
       split at hc
       · rename_i hh
@@ -439,16 +439,16 @@ theorem second_choice (w : W) (j : Job) (hint : Option Nat) (worker : Nat) (w1 :
             rw [← hc.1]; exact Or.inr (Or.inr hh)
           · simp only [Prod.mk.injEq] at hc
             exact Or.inr (Or.inr (popAvail_some _ _ _ _ hc.1))
-    by_cases h1 : hintProcessing w1.pool (some worker) j.key = true
+    by_cases h1 : hintPending w1.pool (some worker) j.key = true
     · simp only [h1, if_true]
       refine ⟨worker, rfl, ?_⟩
-      unfold hintProcessing at h1
+      unfold hintPending at h1
       simp only at h1
       cases hg : getW w1.pool worker with
       | none => rw [hg] at h1; cases h1
       | some p => exact List.any_eq_true.mpr ⟨p, getW_mem hg, by simp [getW_wid hg]⟩
     · simp only [h1, Bool.false_eq_true, if_false]
-      cases hfind : w1.pool.find? (·.isProcessingKey j.key) with
+      cases hfind : w1.pool.find? (·.hasPendingKey j.key) with
       | some p => exact ⟨p.wid, rfl, find_hasW hfind⟩
       | none =>
         simp only
